@@ -20,11 +20,14 @@ from .c01 import cmm
 
 LEVEL = "other"
 TECHNIQUE = "table disjointness between the sanitizer's allow-list, the serializer's raw-text set and the parser's content-model map; pipeline order"
-CLAIM = ("Two structural preconditions of re-parse safety: a tag the sanitizer rejects leaves it as text (which the "
-         "serializer escapes), and no element on the default allow-list is one whose content the serializer would write "
-         "unescaped or the parser would re-read as raw text, in any namespace; the sanitizer precedes tag omission; the "
-         "serializer's text escaping and attribute quoting/escaping rules (shared with C08/C07) hold, so text and attribute "
-         "values handed on by the sanitizer are read back as text and as the same values.")
+CLAIM = ('Two structural preconditions of re-parse safety: a tag the sanitizer rejects leaves it as text '
+         '(which the serializer escapes), and no element on the default allow-list is one whose content the '
+         'serializer would write unescaped or the parser would re-read as raw text, in any namespace; the '
+         "sanitizer precedes tag omission; the serializer's text escaping and attribute quoting/escaping rules "
+         '(shared with C08/C07) hold, so text and attribute values handed on by the sanitizer are read back as '
+         'text and as the same values. Integration-point elements of an allowed foreign root that contains an '
+         'element named like an HTML raw-text element are themselves allowed, and tag omission does not leave '
+         'such an integration point open (both are violated today: two recorded mutation-XSS witnesses).')
 NOT_DECIDED = ("the composition itself: mutation-XSS through foreign content, integration points, table foster parenting, "
                "select, noscript with scripting on; custom allow-lists that include raw-text elements.")
 MODULES = ["filters/sanitizer.py", "serializer.py", "constants.py", "html5parser.py", "_tokenizer.py"]
